@@ -87,7 +87,9 @@ def gen_cases(rng, tier):
             case["series"] = [case["s1"], case["s2"]] + [rand_nd(rng, L or rng.randint(1, maxlen), nd, single)
                                                          for _ in range(rng.randint(0, 2))]
             case["as_3d"] = bool(L) and all(len(x) == r for x in case["series"]) and rng.random() < 0.7
-            if isinstance(st["psi"], list):
+            if isinstance(st["psi"], list) and not case["as_3d"]:
+                # (a 4-tuple psi is kept for a 3-D array: all series have one length, and entry (i, j) must be
+                # DTW(s_i, s_j) -- not DTW(s_j, s_i) -- which only an asymmetric psi can tell apart)
                 st["psi"] = None
             if isinstance(st["psi"], int):
                 ml = min(len(x) for x in case["series"])
